@@ -799,4 +799,12 @@ func init() {
 		rule: "generated opening metadata / peer / context value per tunnel, {forward, reverse with 1-4 tunnels behind one handler, nested in forward, nested in reverse}, 2-6 concurrent RPCs routed round-robin whose handlers and callers call the four accessors, mutate what they get (new key, in-place edit of value slices, delete) and call them again; oracle: equality with what the opener sent / the carrying channel (==) / the RPC's own request metadata, and invisibility of every mutation to every later accessor call; non-trivial = at least two tunnels or a nested tunnel, and at least two handler invocations"})
 }
 
+func init() {
+	register(&checkDef{prop: "C15", parts: []part{
+		{name: "stress", gen: genStress, exec: execStress, monitors: []Monitor{monC15}, labels: commonLabels, nontrivial: ntStress, quick: 150, thorough: 6000, race: true, procs: 16, shards: 4},
+	},
+		assumptions: []string{"the race detector judges only accesses that actually occur in a run; this is dynamic exploration under real parallelism"},
+		rule: "stress engine: rapid-generated concurrent programs (2-8 RPCs started concurrently, a sender and a receiver goroutine per RPC on both ends, readers of Header/Trailer and of grpc.Header/grpc.Trailer targets right after their completion signal, cancellations racing with completion, Close / Stop / GracefulStop / InitiateShutdown / carrier break / new tunnels / registry queries fired mid-run from other goroutines, delay injection at up to four yield points) run free on 16 Ps in a binary built with -race; oracle: zero race reports, zero panics, no hang, message integrity; non-trivial = at least two RPCs or a teardown event overlapped the run"})
+}
+
 var _ = strings.Join
